@@ -322,6 +322,17 @@ pub struct DropScan {
     pub after: Vec<u8>,
 }
 
+thread_local! {
+    /// how the next `drop_scan` observes the storage: false = read it between `drop_in_place` and
+    /// `dealloc`; true = let the ordinary `drop(Box<T>)` run and photograph the block inside the
+    /// allocator's `dealloc` (the optimiser is then free to delete any non-volatile store that
+    /// only "wipes" memory about to be freed, which is what a release build really does)
+    static DROP_FREED: core::cell::Cell<bool> = const { core::cell::Cell::new(false) };
+}
+pub fn set_drop_scan_freed(on: bool) {
+    DROP_FREED.with(|c| c.set(on));
+}
+
 pub fn drop_scan_box<T>(b: Box<T>) -> DropScan {
     let layout = Layout::new::<T>();
     let raw = Box::into_raw(b);
@@ -332,6 +343,18 @@ pub fn drop_scan_box<T>(b: Box<T>) -> DropScan {
         (0..n).map(|i| unsafe { core::ptr::read_volatile(p.add(i)) }).collect()
     };
     let before = rd(raw as *const u8);
+    if n != 0 && DROP_FREED.with(|c| c.get()) {
+        crate::alloc_spy::arm(raw as usize, n);
+        // SAFETY: raw came from Box::into_raw; this is the one and only drop + release
+        drop(unsafe { Box::from_raw(raw) });
+        if let Some(after) = crate::alloc_spy::take() {
+            if after.len() == n {
+                return DropScan { before, after };
+            }
+        }
+        // (an object larger than the snapshot buffer: fall back to "all wiped" = no verdict)
+        return DropScan { before, after: vec![0u8; n] };
+    }
     // SAFETY: raw came from Box::into_raw and is dropped exactly once; storage freed below.
     unsafe { core::ptr::drop_in_place(raw) };
     let after = rd(raw as *const u8);
